@@ -24,7 +24,7 @@ OTHER_OPS = [32, 53, 54, 55, 56, 57, 61, 62, 80, 81, 82, 83, 86, 87, 88, 89, 91,
 FAULTS = ["jump", "returndata", "underflow", "opcode"]
 
 
-def threads(fns, limit=4):
+def threads(fns, limit=3):
     """Run callables concurrently, at most `limit` at a time (staggered starts); re-raise the first exception."""
     res, errs = [None] * len(fns), []
     sem = threading.Semaphore(limit)
